@@ -370,7 +370,7 @@ def strat_view(draw, tier="quick"):
         o.pop("genome")
         lo, hi = o["blocks"][0][0], o["blocks"][-1][1]
     elif kind == "tx":
-        o = draw(S.transcript_spec(max_exons=4, max_len=9, coding=draw(st.sampled_from([True, True, False])), frameshift_prob=12))
+        o = draw(S.transcript_spec(max_exons=4, max_len=9, coding=draw(st.sampled_from([True, True, False])), frameshift_prob=12, cds_overlap_prob=8))
         lo, hi = o["exons"][0][0], o["exons"][-1][1]
     elif kind == "gene":
         o = draw(S.gene_spec(max_tx=3, max_exons=3, max_len=8))
